@@ -1,5 +1,6 @@
 """Literal scanners (DESIGN §5 C19 / C06-c / C07-c / C08): analysis of the tokenizer arms that
 scan digit runs, `.DIGITS` and superscript runs."""
+import re
 from . import thir as T
 from .pat import M, parse as P, unify, subterms
 from .lexer import NEXT, PEEK, EXPR
@@ -57,6 +58,223 @@ def scan_loop_chars(t):
         if isinstance(s, tuple) and s and s[0] == "call" and isinstance(s[1], str) and s[1].startswith("char::is_") and s[1] != "char::is_ascii_digit":
             out["other"].append(s[1])
     return out
+
+
+class _Unknown(Exception):
+    pass
+
+
+def scan_loop_table(t):
+    """Transition table of the literal scan loop, by abstract interpretation of one iteration of its body over a finite
+    partition of the character domain (the characters the body mentions, their neighbours, representatives of the rest,
+    end of input) and the values of the boolean flags declared before the loop.  Returns None if the loop uses a
+    construct outside the small language interpreted here (the syntactic rules then decide), otherwise
+    {"init": flags, "table": {(flags, ch): (outcome, pushed, consumed, flags')}} over the reachable flag states."""
+    items = list(t[1:]) if isinstance(t, tuple) and t and t[0] == "seq" else [t]
+    loops = [(i, x) for i, x in enumerate(items) if isinstance(x, tuple) and x and x[0] == "loop"]
+    if len(loops) != 1:
+        return None
+    li, lp = loops[0]
+    flags0 = {}
+    for x in items[:li]:
+        if isinstance(x, tuple) and len(x) == 3 and x[0] == "let" and isinstance(x[1], str) and x[1].startswith("m") and isinstance(x[2], tuple) and x[2][0] == "lit" and len(x[2]) == 3 and x[2][2] == "bool":
+            flags0[x[1]] = x[2][1] == "true"
+    body = lp[1]
+    # representatives
+    reps = set("059.eE-+_ a,x/:") | {"\u0663", "\u00b2", "\uff11"}
+    for s_ in subterms(body):
+        if isinstance(s_, tuple) and len(s_) == 2 and s_[0] == "char" and isinstance(s_[1], str) and len(s_[1]) == 1:
+            c = ord(s_[1])
+            reps |= {chr(c), chr(max(c - 1, 0)), chr(min(c + 1, 0x10ffff))}
+        if isinstance(s_, tuple) and len(s_) == 5 and s_[0] == "prange" and s_[4] == "char":
+            for c in (int(s_[1]), int(s_[2])):
+                reps |= {chr(c), chr(max(c - 1, 0)), chr(min(c + 1, 0xd7ff))}
+    reps = sorted(reps) + [None]
+
+    def one(ch, flags):
+        st = {"env": {}, "flags": dict(flags), "pushed": [], "consumed": 0}
+
+        def val(a):
+            if isinstance(a, tuple) and len(a) == 2 and a[0] == "char":
+                return a[1]
+            if isinstance(a, tuple) and len(a) == 2 and a[0] == "var" and a[1] in st["env"]:
+                v = st["env"][a[1]]
+                return v[1] if isinstance(v, tuple) else v
+            raise _Unknown("value %s" % T.show(a)[:60])
+
+        def pmatch(p, c):
+            """character pattern against character c"""
+            if p == "_":
+                return True
+            if isinstance(p, tuple):
+                if p[0] == "bind" and len(p) == 2:
+                    st["env"][p[1]] = c
+                    return True
+                if p[0] == "char":
+                    return p[1] == c
+                if p[0] == "prange" and p[4] == "char":
+                    lo, hi = int(p[1]), int(p[2])
+                    return lo <= ord(c) <= hi if p[3] == "Included" else lo <= ord(c) < hi
+                if p[0] == "por":
+                    return any(pmatch(q, c) for q in p[1:])
+            raise _Unknown("pattern %s" % T.show(p)[:60])
+
+        def omatch(p, c, consumed):
+            """Option<char> pattern against the peeked / consumed character (None at end of input)"""
+            if p == "_":
+                return True
+            if isinstance(p, tuple) and p[0] == "pvar" and p[1] == "Option::None":
+                return c is None
+            if isinstance(p, tuple) and p[0] == "pvar" and p[1] == "Option::Some" and len(p) == 3:
+                if c is None:
+                    return False
+                if consumed and isinstance(p[2], tuple) and p[2][0] == "bind":
+                    st["env"][p[2][1]] = ("consumed", c)
+                    return True
+                return pmatch(p[2], c)
+            raise _Unknown("option pattern %s" % T.show(p)[:60])
+
+        def cond(c):
+            if not isinstance(c, tuple) or not c:
+                raise _Unknown("condition")
+            h = c[0]
+            if h == "lit" and len(c) == 3 and c[2] == "bool":
+                return c[1] == "true"
+            if h == "var" and c[1] in st["flags"]:
+                return st["flags"][c[1]]
+            if h == "var" and isinstance(st["env"].get(c[1]), bool):
+                return st["env"][c[1]]
+            if h == "un" and c[1] == "not":
+                return not cond(c[-1])
+            if h == "op" and len(c) == 5 and c[1] == "and":
+                return cond(c[3]) and cond(c[4])
+            if h == "op" and len(c) == 5 and c[1] == "or":
+                return cond(c[3]) or cond(c[4])
+            if h == "op" and len(c) == 5 and c[1] in ("eq", "ne") and c[2] == "char":
+                r = val(c[3]) == val(c[4])
+                return r if c[1] == "eq" else not r
+            if h == "op" and len(c) == 5 and c[1] in ("eq", "ne") and c[2] == "bool":
+                r = cond(c[3]) == cond(c[4])
+                return r if c[1] == "eq" else not r
+            if h == "call" and isinstance(c[1], str) and len(c) == 4 and re.match(r"^<&?char as cmp::PartialEq(<&?char>)?>::(eq|ne)$", c[1]):
+                r = val(c[2]) == val(c[3])
+                return r if c[1].endswith("eq") else not r
+            if h == "call" and c[1] == "char::is_ascii_digit" and len(c) == 3:
+                return val(c[2]) in "0123456789"
+            if h == "iflet" and len(c) == 3:
+                if unify(PEEK, c[2]) is not None:
+                    return omatch(c[1], ch, False)
+                if unify(NEXT, c[2]) is not None:
+                    st["consumed"] += 1
+                    if st["consumed"] > 1:
+                        raise _Unknown("two characters consumed in one iteration")
+                    return omatch(c[1], ch, True)
+            raise _Unknown("condition %s" % T.show(c)[:80])
+
+        def ex(x):
+            if not isinstance(x, tuple) or not x:
+                raise _Unknown("statement")
+            h = x[0]
+            if h == "seq":
+                for y in x[1:]:
+                    r = ex(y)
+                    if r != "next":
+                        return r
+                return "next"
+            if h == "unit":
+                return "next"
+            if h == "break":
+                return "break"
+            if h == "continue":
+                return "continue"
+            if h == "None" or (h == "return" and len(x) == 2 and x[1] == ("None",)):
+                return "none"
+            if h == "if" and len(x) == 4:
+                return ex(x[2]) if cond(x[1]) else ex(x[3])
+            if h == "match" and len(x) > 2:
+                opt = unify(PEEK, x[1]) is not None
+                c = ch if opt else val(x[1])
+                for arm in x[2:]:
+                    if (omatch(arm[0], c, False) if opt else pmatch(arm[0], c)) and (len(arm) == 2 or cond(arm[1])):
+                        return ex(arm[-1])
+                raise _Unknown("no arm")
+            if h == "set" and len(x) == 3 and isinstance(x[1], tuple) and x[1][0] == "var" and x[1][1] in st["flags"]:
+                st["flags"][x[1][1]] = cond(x[2])
+                return "next"
+            if h == "let" and len(x) == 3 and isinstance(x[1], str):
+                if isinstance(x[2], tuple) and x[2] and x[2][0] == "try" and unify(PEEK, x[2][1]) is not None:
+                    if ch is None:
+                        return "none"
+                    st["env"][x[1]] = ch
+                    return "next"
+                st["env"][x[1]] = cond(x[2])
+                return "next"
+            if h == "call" and x[1] == "String::push" and len(x) == 4:
+                a = x[3]
+                if unify(NEXT, a) is not None or (isinstance(a, tuple) and a[0] == "try" and unify(NEXT, a[1]) is not None):
+                    st["consumed"] += 1
+                    if ch is None:
+                        return "none" if a[0] == "try" else "next"
+                    st["pushed"].append(ch)
+                    return "next"
+                if isinstance(a, tuple) and a[0] == "var" and a[1] in st["env"]:
+                    v = st["env"][a[1]]
+                    st["pushed"].append(v[1] if isinstance(v, tuple) else "unconsumed:%s" % v)
+                    return "next"
+                raise _Unknown("push of %s" % T.show(a)[:60])
+            if unify(NEXT, x) is not None:
+                st["consumed"] += 1
+                return "next"
+            raise _Unknown("statement %s" % T.show(x)[:80])
+        out = ex(body)
+        return out, tuple(st["pushed"]), st["consumed"], tuple(sorted(st["flags"].items()))
+    table = {}
+    init = tuple(sorted(flags0.items()))
+    todo, seen = [init], {init}
+    try:
+        while todo:
+            fl = todo.pop()
+            for ch in reps:
+                r = one(ch, dict(fl))
+                table[(fl, ch)] = r
+                if r[0] in ("next", "continue") and r[3] not in seen:
+                    seen.add(r[3])
+                    todo.append(r[3])
+            if len(seen) > 16:
+                return None
+    except (_Unknown, KeyError, IndexError, ValueError, TypeError):
+        return None
+    return {"init": init, "table": table, "states": sorted(seen), "reps": reps}
+
+
+def table_verdict(tb, want_dot, second_point_ends):
+    """literal grammar read off the transition table: (ok, description)"""
+    problems = []
+    acc = lambda r, ch: r[0] in ("next", "continue") and r[1] == (ch,) and r[2] == 1
+    stop = lambda r: r[0] == "break" and r[1] == () and r[2] == 0
+    for (fl, ch), r in sorted(tb["table"].items(), key=lambda kv: (kv[0][0], kv[0][1] or "")):
+        if ch is None:
+            if not stop(r):
+                problems.append("end of input in state %s: %s" % (dict(fl), r[0]))
+        elif ch in "0123456789":
+            if not (acc(r, ch) and r[3] == fl):
+                problems.append("digit %r in state %s: %s pushed=%s consumed=%d" % (ch, dict(fl), r[0], list(r[1]), r[2]))
+        elif ch == ".":
+            if fl == tb["init"] and acc(r, ch) != want_dot:
+                problems.append("'.' %s at the start of the literal" % ("accepted" if acc(r, ch) else "not accepted"))
+            if not (acc(r, ch) or stop(r)):
+                problems.append("'.' in state %s: %s pushed=%s consumed=%d" % (dict(fl), r[0], list(r[1]), r[2]))
+        else:
+            if not stop(r):
+                problems.append("character %r in state %s: %s pushed=%s consumed=%d (the literal must end there)" % (ch, dict(fl), r[0], list(r[1]), r[2]))
+    sp = None
+    if want_dot:
+        r = tb["table"].get((tb["init"], "."))
+        if r is not None and acc(r, "."):
+            after = r[3]
+            r2 = tb["table"].get((after, "."))
+            sp = r2 is not None and stop(r2) and after != tb["init"] and all(tb["table"][(after, d)][3] == after for d in "059")
+    return (not problems), "; ".join(problems[:4]), sp
 
 
 def _vars(t):
@@ -171,8 +389,16 @@ def check_literals(run, m, tag):
     chars = scan_loop_chars(t)
     allowed_other = []
     want_dot = ev != "eval_i64"
-    run.ob(chars["digit"] and chars["dot"] == want_dot and sorted(set(chars["other"])) == sorted(allowed_other), "literal-chars|%s|digit" % ev,
-           "%s a literal continues over ASCII digits%s only (no sign, no exponent letter)" % (tag, " and '.'" if want_dot else ""), w, str(chars))
+    tbl = scan_loop_table(t)
+    m.scan_table = tbl
+    if tbl is not None:
+        # decided on the transition table of the loop (one iteration interpreted over a finite partition of the characters)
+        okt, whyt, _sp = table_verdict(tbl, want_dot, ev == "eval_number")
+        run.ob(okt, "literal-chars|%s|digit" % ev, "%s a literal continues over ASCII digits%s only (no sign, no exponent letter)" % (tag, " and '.'" if want_dot else ""), w,
+               whyt or str(chars), sample={"evaluator": ev, "scan_loop_states": len(tbl["states"]), "character_classes": len(tbl["reps"]), "table_cells": len(tbl["table"])})
+    else:
+        run.ob(chars["digit"] and chars["dot"] == want_dot and sorted(set(chars["other"])) == sorted(allowed_other), "literal-chars|%s|digit" % ev,
+               "%s a literal continues over ASCII digits%s only (no sign, no exponent letter)" % (tag, " and '.'" if want_dot else ""), w, str(chars))
     # every consumed character is pushed, unconditionally within the character-class test; nothing else feeds the buffer
     okloop, why = scan_loop_discipline(t)
     run.ob(okloop, "literal-loop|%s|digit" % ev, "%s the scanner pushes every character it consumes (and nothing else) into the literal text" % tag, w, why)
